@@ -176,7 +176,7 @@ def _run(a, prop, work, t0):
             lines.append(f"INCONCLUSIVE property={prop} reason={s}")
 
     wall = time.time() - t0
-    if not a.replay and not a.no_evidence:
+    if not a.replay and not a.no_evidence and prop != "selftest":
         ev = {
             "property_id": prop,
             "tier": a.tier,
